@@ -30,7 +30,7 @@ def frame_of(ctx, rows):
 
 
 def run_block(ctx, cells, edges, total_area, row=2, column=7):
-    stmts = ctx.fragment(S, "stress_tensor", PATTERNS)
+    stmts = ctx.fragment(S, "stress_tensor", PATTERNS, skips=["current_edges_mesh = big_edges.loc["])      # A-pandas: the selection is given
     sig = ctx.dict()
     env = dict(current_cell_mesh=frame_of(ctx, cells), current_edges_mesh=frame_of(ctx, edges), total_area=total_area,
                sigmas=sig, row=row, column=column)
@@ -157,3 +157,46 @@ def o18_2(tier):
             ctx.ensure([int(x) for x in column(ctx, dc, "ids")] == list(cycles), f"call {round_}: one row per cell")
             ctx.ensure(ctx.And(*[ctx.close(a, pres[c]) for a, c in zip(column(ctx, dc, "pressure"), cycles)]), f"call {round_}: the CURRENT pressure of every cell")
     return [("tri_star,two-calls", h)]
+
+
+@obligation("O18.3", ["C18", "C10"], ["forsys.frames:Frame.calculate_stress_tensor"],
+            "Frame.calculate_stress_tensor: principal_stress holds exactly one entry per grid centre of the tensor field just computed, namely the "
+            "eigen-decomposition of THAT grid cell's tensor - also when an earlier call on the same frame used another grid", tier="Pn")
+def o18_3(tier):
+    def h(ctx):
+        F = ctx.get(ctx.module("forsys.frames"), "Frame")
+        fr = ctx.alloc(F)
+        grids = [([ctx.real("ax0"), ctx.real("ax1")], [ctx.real("ay0")]), ([ctx.real("bx0")], [ctx.real("by0"), ctx.real("by1")])]
+        for xs, ys in grids:
+            ctx.assume(ctx.Not(ctx.close(xs[0], xs[-1])) if len(xs) > 1 else True, "pre: distinct grid centres")
+            ctx.assume(ctx.Not(ctx.close(ys[0], ys[-1])) if len(ys) > 1 else True, "pre: distinct grid centres")
+        ctx.assume(ctx.And(ctx.Not(ctx.close(grids[0][0][0], grids[1][0][0])), ctx.Not(ctx.close(grids[0][0][1], grids[1][0][0]))), "pre: the second grid's centres differ from the first's")
+        state = dict(call=0)
+        tensors = {}
+
+        def field(it, a, k):
+            g = state["call"]
+            xs, ys = grids[g]
+            state["call"] += 1
+            sig = []
+            for r in range(len(xs)):
+                for c in range(len(ys)):
+                    tensors[(g, r, c)] = ("tensor", g, r, c)
+                    sig.append((f"{r}{c}", tensors[(g, r, c)]))
+            return (ctx.dict(sig), (list(xs), list(ys)))
+
+        def eig(it, a, k):
+            return ("eig-of",) + tuple(a[0][1:])
+        ctx.stub("forsys.stress_tensor:stress_tensor", field, "callee contract O18.1 (per grid cell) / B18 (selection): only its shape matters here")
+        ctx.stub("numpy.linalg.eig", eig, "A-eig: numpy.linalg.eig returns the eigen-decomposition of the matrix it is given")
+        if ctx.mode != "sym":
+            return           # tensors are opaque tokens here; the native comparison with numpy's eig is B18
+        for g, (xs, ys) in enumerate(grids):
+            ctx.callm(fr, "calculate_stress_tensor", 5 + g, 1.0)
+            got = ctx.list_of(ctx.get(fr, "principal_stress"))
+            ctx.ensure(len(got) == len(xs) * len(ys), f"call {g + 1}: one entry per grid centre of the current field ({len(xs) * len(ys)}), none left from an earlier grid")
+            for r in range(len(xs)):
+                for c in range(len(ys)):
+                    hit = [v for kk, v in got if ctx.it.truth(ctx.And(ctx.close(kk[0], xs[r]), ctx.close(kk[1], ys[c])))]
+                    ctx.ensure(len(hit) == 1 and hit[0] == ("eig-of", g, r, c), f"call {g + 1}: centre ({r},{c}) carries the eigen-decomposition of its own tensor")
+    return [("two-calls-with-different-grids", h)]
